@@ -150,6 +150,26 @@ def native_twin_models(seed=0):
                     if abs(got - want) > 1e-9 * max(1.0, abs(want)):
                         problems.append(f"model #{vi + 1} compiled in one process (cse={cse}; {moved.name} declared as {'calibration' if vi == 1 else 'control'}): returns {got} for state {s.name}, its update expression evaluates to {want}")
                         break
+        # ONE definition object compiled twice with different calibration values; both compiled models stay alive and the FIRST is
+        # evaluated after the second was compiled: each carries its own calibration
+        for cse in (True, False):
+            if not sc.calibration:
+                break
+            model_def = ui.Model(dt=sc.dt, state=set(sc.state), control=set(sc.control), calibration=set(sc.calibration), state_model=dict(sc.state_model))
+            cals = [{cs: float(pt[cs]) for cs in sc.calibration}, {cs: float(pt[cs]) * -1.5 + 0.75 for cs in sc.calibration}]
+            models = [py.compile(model_def, calibration_map=dict(cm), config={"common_subexpression_elimination": cse}) for cm in cals]
+            for mi, (model, cm) in enumerate(zip(models, cals)):
+                ptm = dict(pt)
+                ptm.update({cs: Fraction(cm[cs]) for cs in sc.calibration})
+                state = model.State(**{s.name: float(pt[s]) for s in sc.state})
+                control = model.Control(**{u.name: float(pt[u]) for u in sc.control}) if sc.control else None
+                out = model.model(float(pt[sc.dt]), state, control) if sc.control else model.model(float(pt[sc.dt]), state)
+                for idx, s in enumerate(model.arglist_state):
+                    want = float(scenarios.exact(sc.state_model[s], ptm))
+                    got = float(out.data[idx, 0])
+                    if abs(got - want) > 1e-9 * max(1.0, abs(want)):
+                        problems.append(f"one definition compiled twice with different calibration values (cse={cse}): model #{mi + 1}, evaluated after both were compiled, returns {got} for state {s.name}; with ITS calibration {cm} the update expression evaluates to {want}")
+                        break
     except Exception as e:
         problems.append(f"compiling/evaluating a valid model raised {type(e).__name__}: {(str(e).splitlines() or [''])[0]}")
     return problems, sc
